@@ -184,6 +184,7 @@ def step (w : SpecWorld) (op : Op) : SpecWorld × String :=
     | some a, some b => (w, s!"= ok {a.ts}..={b.ts}")
     | _, _ => (w, "= ok none")
   | .payloadSize => if !w.isOpen then (w, "~none") else (w, s!"= ok {w.p}")
+  | .flush => if !w.isOpen then (w, "~none") else (w, "= ok")
   | .page n =>
     if !w.isOpen then (w, "~none") else
     if n = 0 then (w, "~none") else (w, "= " ++ fmtEntries w.log)
